@@ -137,6 +137,12 @@ def gen_c04(rng, tier):
                         for back in (sz * ln, sz * ln - 4, sz * ln - sz // 2):
                             if 0 < back <= s.rs:
                                 case.append("derva_slice %s %s 0x%x %d" % (k, ty, (s.va + s.rs - back) & U32, ln))
+                    # element counts whose byte size does not fit a usize (the request must fail with Overflow, through the
+                    # rva and through the va entry point; round-6 change C04-r6-2 let the product wrap to a few bytes)
+                    if s.rs >= sz:
+                        for ln in ((1 << 64) // sz + 1, (1 << 64) // sz + 2, (1 << 63) // sz * 2 + 1):
+                            case.append("derva_slice %s %s 0x%x %d" % (k, ty, s.va & U32, ln))
+                            case.append("deref_slice %s %s 0x%x %d" % (k, ty, (pe.image_base + s.va) & ((1 << pe.bits) - 1), ln))
         # the same table seen as a mapped view (get_section_bytes on views; the header-arithmetic conversions
         # `rva_to_file_offset` / `file_offset_to_rva` are offered by views as well)
         kv = "v%d" % pe.bits
